@@ -409,6 +409,74 @@ func schedListVsSync(res *core.Result, r *core.RNG) error {
 	return nil
 }
 
+// (b4) devices sync over TCP while the week rotation runs: every reply is a snapshot, i.e. each
+// timeslot it claims (offset + set bit) is one the device really reported.  A reply that pairs the
+// bitfield of one window with the offset of another claims timeslots nobody reported.
+func schedSyncVsRotate(res *core.Result, r *core.RNG) error {
+	s, err := started(res, r, "sched-rot", 900, false, 1<<20)
+	if err != nil {
+		return err
+	}
+	w := s.w
+	d := s.a.Devices[0]
+	var mu sync.Mutex
+	reported := map[uint32]bool{}
+	var bad []string
+	var stop int32
+	var wg sync.WaitGroup
+	var replies int64
+	for k := 0; k < 8; k++ {
+		wg.Add(1)
+		go func() {
+			defer wg.Done()
+			for atomic.LoadInt32(&stop) == 0 {
+				found, _, off, bits, _, err := w.Sync(d.ID, false)
+				if err != nil || !found {
+					continue
+				}
+				atomic.AddInt64(&replies, 1)
+				mu.Lock()
+				for _, b := range bits {
+					if !reported[off+uint32(b)] && len(bad) < 3 {
+						bad = append(bad, fmt.Sprintf("a sync reply with window offset %d has bit %d set, i.e. claims a record for timeslot %d, which the device never reported", off, b, off+uint32(b)))
+					}
+				}
+				mu.Unlock()
+			}
+		}()
+	}
+	rot := 0
+	for week := 0; week < 10; week++ {
+		// a few reports at irregular slots near the clock (registered before they are sent)
+		for j := 0; j < 3; j++ {
+			ts := w.Now - uint32(r.Intn(400))
+			mu.Lock()
+			reported[ts] = true
+			mu.Unlock()
+			s.send(d, ts, 500+uint64(r.Intn(100)))
+		}
+		before := w.S.VerifSnapshot().Offset
+		w.SetNow(before + 3300 + uint32(r.Intn(600)))
+		s.rotateTick()
+		if w.S.VerifSnapshot().Offset != before {
+			rot++
+		}
+		time.Sleep(2 * time.Millisecond)
+	}
+	atomic.StoreInt32(&stop, 1)
+	wg.Wait()
+	res.Count("sched.sync-vs-rotate")
+	if rot < 5 || atomic.LoadInt64(&replies) < 20 {
+		w.Failed = fmt.Sprintf("sync-vs-rotate: only %d rotations / %d replies", rot, replies)
+	}
+	for _, b := range bad {
+		s.fail(b+" (the reply is not a snapshot of one server state: bitfield and offset come from different windows)", "sync-reply-torn")
+	}
+	var items []string
+	s.finish(&items)
+	return nil
+}
+
 func schedWorker(res *core.Result, r *core.RNG, tier, out string) error {
 	var items []string
 	n := 1
@@ -436,9 +504,12 @@ func schedWorker(res *core.Result, r *core.RNG, tier, out string) error {
 		if err := schedListVsSync(res, r.Fork()); err != nil {
 			return err
 		}
+		if err := schedSyncVsRotate(res, r.Fork()); err != nil {
+			return err
+		}
 	}
-	res.Required = []string{"sched.inject:ban-captured-device", "sched.inject:rotate", "sched.burst", "sched.ban-in-flight", "sched.mix", "sched.list-vs-sync"}
-	res.Rule = "injection of every menu operation between the impact job's two critical sections (compared with the model); bursts of distinct reports back to back on the real UDP socket (every slot must hold its report); devices banned while their datagrams are in flight on the real socket; many-goroutine mix of UDP reports, statistics (with insert_false_negatives), equipment, archive, sync, recent-reports requests and impact rounds, judged against the order-independent report rule; announcements of new authorized servers against devices syncing in a loop with a liveness probe; (mix) judged against the order-independent report rule; -race build in the thorough tier"
+	res.Required = []string{"sched.inject:ban-captured-device", "sched.inject:rotate", "sched.burst", "sched.ban-in-flight", "sched.mix", "sched.list-vs-sync", "sched.sync-vs-rotate"}
+	res.Rule = "injection of every menu operation between the impact job's two critical sections (compared with the model); bursts of distinct reports back to back on the real UDP socket (every slot must hold its report); devices banned while their datagrams are in flight on the real socket; many-goroutine mix of UDP reports, statistics (with insert_false_negatives), equipment, archive, sync, recent-reports requests and impact rounds, judged against the order-independent report rule; devices syncing while ten week rotations run (every reply must be a snapshot); announcements of new authorized servers against devices syncing in a loop with a liveness probe; (mix) judged against the order-independent report rule; -race build in the thorough tier"
 	return writeServerCases(res, out, "sched", items)
 }
 
